@@ -101,13 +101,21 @@ def read_model(tflite_model: Union[str, bytearray]) -> Any:
     flatbuffer_model: the flatbuffer_model.
   """
   if isinstance(tflite_model, str):
-    return flatbuffer_utils.read_model(tflite_model)
+    model = flatbuffer_utils.read_model(tflite_model)
   elif isinstance(tflite_model, bytes) or isinstance(tflite_model, bytearray):
-    return flatbuffer_utils.read_model_from_bytearray(tflite_model)
+    model = flatbuffer_utils.read_model_from_bytearray(tflite_model)
   else:
     raise ValueError(
         "Unsupported tflite_model type: %s" % type(tflite_model).__name__
     )
+  # Models written before the builtin code outgrew one byte keep it in
+  # `deprecated_builtin_code` only (`builtin_code` is 0, i.e. ADD); like the
+  # runtime, take the larger of the two fields as the operator's code.
+  for op_code in model.operatorCodes:
+    op_code.builtinCode = max(
+        op_code.builtinCode, op_code.deprecatedBuiltinCode
+    )
+  return model
 
 
 def get_model_content(tflite_path: str) -> bytes:
